@@ -171,6 +171,9 @@ func (s *script) peerFill() bool {
 	if s.r.Intn(3) == 0 || n > room {
 		n = room
 	}
+	if n > 60000 {
+		n = 60000 // one IP packet
+	}
 	if s.pNext+n > len(s.peer) {
 		n = len(s.peer) - s.pNext
 	}
@@ -475,7 +478,7 @@ func runScript(seed uint64, idx int, mix string, nev int, kinds map[string]int) 
 		cfg.RcvBuf = []int{100, 300, 700}[r.Intn(3)]
 	}
 	bigRcv := false
-	if mix == "c04" && !wrapOnly && r.Intn(6) == 0 {
+	if mix == "c04" && !wrapOnly && r.Intn(10) == 0 {
 		// a receive buffer that needs window scaling and can still be filled within one script
 		cfg.RcvBuf = []int{65536, 65537, 70001, 131072, 140000}[r.Intn(5)]
 		cfg.PeerWS = r.Intn(3)
